@@ -96,15 +96,40 @@ Print Assumptions C15_never_unknown.
 (* ================================================================== error_unmangled *)
 
 (** Repaired reader: for the reply `(error "msg")` (any white space around it, any length, any
-    bytes - quotes included - as long as the parentheses of msg do not leave the reply open) the
-    returned error carries exactly msg, and exactly one line was read. *)
+    bytes) whose string-aware parenthesis count is not positive - i.e. the reply is lexically complete -
+    the returned error carries exactly msg, and exactly one line was read. *)
 Theorem C15_error_unmangled :
   forall (fuel : nat) (w : world) (pre post msg : string) (rest : list string),
     w_lines w = (pre ++ error_reply msg ++ post) :: rest ->
-    all_ws pre = true -> all_ws post = true -> (count_parens msg <= 0)%Z ->
+    all_ws pre = true -> all_ws post = true ->
+    (count_parens_aware (pre ++ error_reply msg ++ post) <= 0)%Z ->
     read_response Fix fuel w = Err (EFromSolver msg) (after_one_line w rest).
 Proof. exact error_unmangled_lemma. Qed.
 Print Assumptions C15_error_unmangled.
+
+(** ... which is the case for EVERY message without a double quote, whatever parentheses or bars it
+    contains (`unexpected token, '(' expected` included) *)
+Theorem C15_error_unmangled_plain :
+  forall (fuel : nat) (w : world) (pre post msg : string) (rest : list string),
+    w_lines w = (pre ++ error_reply msg ++ post) :: rest ->
+    all_ws pre = true -> all_ws post = true -> has_quote msg = false ->
+    read_response Fix fuel w = Err (EFromSolver msg) (after_one_line w rest).
+Proof. exact error_unmangled_plain_lemma. Qed.
+Print Assumptions C15_error_unmangled_plain.
+
+(** When does the reader wait?  Only for a LIVE solver that has so far written nothing, or a reply
+    that is still open under the reader's own parenthesis count (repaired reader: lexically open).
+    That is the one class of "blocking" the property cannot forbid to a reader without a timeout. *)
+Theorem C15_blocked_only_on_open_reply :
+  forall (v : variant) (fuel : nat) (w : world),
+    read_response v fuel w = Blocked ->
+    w_tail w = TAlive /\
+    match w_lines w with
+    | [] => True
+    | l :: r => (0 < count_v v (join_lines l r))%Z
+    end.
+Proof. exact read_response_blocked_open. Qed.
+Print Assumptions C15_blocked_only_on_open_reply.
 
 (** Today's reader NEVER hands the message over: for every such reply the result is different from
     [Err (EFromSolver msg)] (solver.rs:267 cuts [7 .. len-8]: a panic, or 5 bytes too few) ... *)
@@ -207,3 +232,22 @@ Example C15_examples :
 "; "sat
 "; "((b tr"] TEof) = OutOfFuel.
 Proof. vm_compute. repeat split; eexists; reflexivity. Qed.
+
+(** the blocking class and its boundary: a live solver that wrote an error reply whose message consists
+    of THREE double quotes in all (opening quote, one more, closing quote: the string literal is not
+    terminated, the reply is lexically incomplete) keeps the repaired reader waiting; the same bytes
+    followed by end of stream are an error; with FOUR quotes (the SMT-LIB spelling of the message that
+    is one quote character) and for a message with an opening parenthesis the reply is complete and is
+    reported, message intact - while the original reader blocked on the parenthesis. *)
+Example C15_examples_blocking :
+  read_response Fix 9 (ex_world ["(error """""")
+"] TAlive) = Blocked
+  /\ read_response Fix 9 (ex_world ["(error """""")
+"] TEof) = Err ESolverDead (mkW [] TEof [] None [] 2)
+  /\ read_response Fix 9 (ex_world ["(error """""""")
+"] TAlive) = Err (EFromSolver """""") (mkW [] TAlive [] None [] 1)
+  /\ read_response Fix 9 (ex_world ["(error ""unexpected token, '(' expected"")
+"] TAlive) = Err (EFromSolver "unexpected token, '(' expected") (mkW [] TAlive [] None [] 1)
+  /\ read_response Cur 9 (ex_world ["(error ""unexpected token, '(' expected"")
+"] TAlive) = Blocked.
+Proof. vm_compute. repeat split; reflexivity. Qed.
